@@ -51,7 +51,7 @@ def canon_name(lab):
     return webencodings.lookup(lab).name
 
 
-TEXTS = ["plain", "caf\xe9", "привет", "あい", "€", "\U0001F600", "中文", "na\xefve — dash", "a&b<c>d\"e'f",
+TEXTS = ["\xc9cole", "\xc1RBOL \xd6l=1", "?q=\xc7a", "plain", "caf\xe9", "привет", "あい", "€", "\U0001F600", "中文", "na\xefve — dash", "a&b<c>d\"e'f",
          "\xa0nbsp", "กข", "אב", "ΑΒ", "ąę", "x" * 30]
 
 
@@ -63,7 +63,8 @@ def gen_doc(rng):
         return s.replace("&", "&amp;").replace("<", "&lt;").replace('"', "&quot;")
     head = []
     decl = 0
-    layout = rng.choice(["none", "none", "title", "charset", "pragma", "two", "after-long-title", "after-long-comment", "mixed", "uppercase", "in-body-only"])
+    layout = rng.choice(["none", "none", "title", "charset", "pragma", "two", "after-long-title", "after-long-comment", "mixed", "uppercase", "in-body-only",
+                         "pragma-after-long-title", "pragma-after-long-comment", "pragma-lower-after-long-title"])
     old = rng.choice(["utf-8", "koi8-r", "iso-8859-1", "shift_jis", "windows-1251", "bogus", "utf-16", ""])
     if layout in ("title", "mixed", "two"):
         head.append("<title>%s</title>" % esc(txt()))
@@ -71,6 +72,16 @@ def gen_doc(rng):
         head.append("<title>%s</title>" % esc((rng.choice(TEXTS[1:6]) + " ") * 300))
     if layout == "after-long-comment":
         head.append("<!--%s-->" % ("c" * 1100))
+    if layout in ("pragma-after-long-title", "pragma-lower-after-long-title"):
+        head.append("<title>%s</title>" % esc((rng.choice(TEXTS[4:9]) + " ") * 300))
+    if layout == "pragma-after-long-comment":
+        head.append("<!--%s-->" % ("c" * 1100))
+    if layout in ("pragma-after-long-title", "pragma-after-long-comment"):
+        head.append("<meta http-equiv=\"Content-Type\" content=\"text/html; charset=%s\">" % old)
+        decl += 1
+    if layout == "pragma-lower-after-long-title":
+        head.append("<meta content=\"text/html;charset=%s\" http-equiv=\"content-type\">" % old)
+        decl += 1
     if layout in ("charset", "two", "after-long-title", "after-long-comment", "mixed"):
         head.append("<meta charset=\"%s\">" % old)
         decl += 1
